@@ -69,7 +69,9 @@ func (o Out) String() string {
 
 // Same reports whether two invocations are observably equal (stdout bytes
 // and exit status).
-func (o Out) Same(p Out) bool { return o.Exit == p.Exit && o.Stdout == p.Stdout && o.Crashed == p.Crashed }
+func (o Out) Same(p Out) bool {
+	return o.Exit == p.Exit && o.Stdout == p.Stdout && o.Crashed == p.Crashed
+}
 
 var salt = []byte("verif-simulated-binary-build-id")
 
@@ -224,10 +226,10 @@ func StdBase(scratch string, flags []string, env []string) (*simos.FS, error) {
 	}
 	defer os.RemoveAll(dir)
 	files := map[string]string{
-		"go.mod":        "module example.com/stdbase\n\ngo 1.22\n",
-		"b/b.go":        "// Package b is the base.\npackage b\n\n// B is.\nfunc B() int { return 1 }\n",
-		"b/b_test.go":   "package b\n\n// CheckB is.\nfunc CheckB() int { return B() }\n",
-		"b/x_test.go":   "package b_test\n\nimport \"example.com/stdbase/b\"\n\n// CheckX is.\nfunc CheckX() int { return b.B() }\n",
+		"go.mod":      "module example.com/stdbase\n\ngo 1.22\n",
+		"b/b.go":      "// Package b is the base.\npackage b\n\n// B is.\nfunc B() int { return 1 }\n",
+		"b/b_test.go": "package b\n\n// CheckB is.\nfunc CheckB() int { return B() }\n",
+		"b/x_test.go": "package b_test\n\nimport \"example.com/stdbase/b\"\n\n// CheckX is.\nfunc CheckX() int { return b.B() }\n",
 	}
 	for n, c := range files {
 		p := dir + "/" + n
